@@ -8,6 +8,7 @@ import Mochi.Driver.WsConn
 import Mochi.Driver.Codec
 import Mochi.Driver.Broker
 import Mochi.Driver.BrokerSpec
+import Mochi.Driver.WriteBuf
 open Mochi.Driver
 
 structure DState where
@@ -15,6 +16,7 @@ structure DState where
   ledger : LState := {}
   bufpool : BState := {}
   broker : BkState := {}
+  writebuf : WState := {}
 
 /-- input line: `op args…<TAB>implementation output`;
     answer line: `model output<TAB>spec verdict<TAB>signature`; unknown op => `bad-op` -/
@@ -42,7 +44,10 @@ def answer (st : DState) (line : String) : DState × String :=
           | none =>
             match brokerOpV st.broker impl ws with
             | some (k', r) => ({ st with broker := k' }, fmt r)
-            | none => (st, "bad-op")
+            | none =>
+              match writebufOp st.writebuf impl ws with
+              | some (w', r) => ({ st with writebuf := w' }, fmt r)
+              | none => (st, "bad-op")
 
 partial def loop (h : IO.FS.Stream) (out : IO.FS.Stream) (st : DState) : IO Unit := do
   let line ← h.getLine
